@@ -34,6 +34,57 @@ type VSym struct {
 	Off  int64
 }
 
+// VLin: a linear combination of named integer quantities.
+type VLin struct {
+	Terms map[string]int64
+	Off   int64
+}
+
+func linOf(v Val) (VLin, bool) {
+	switch x := v.(type) {
+	case VSym:
+		return VLin{map[string]int64{x.Name: 1}, x.Off}, true
+	case VLin:
+		return x, true
+	case VConst:
+		if n, ok := constInt64(x); ok {
+			return VLin{map[string]int64{}, n}, true
+		}
+	}
+	return VLin{}, false
+}
+
+func linNorm(l VLin) Val {
+	t := map[string]int64{}
+	for k, c := range l.Terms {
+		if c != 0 {
+			t[k] = c
+		}
+	}
+	if len(t) == 0 {
+		return intConst(l.Off)
+	}
+	if len(t) == 1 {
+		for k, c := range t {
+			if c == 1 {
+				return VSym{k, l.Off}
+			}
+		}
+	}
+	return VLin{t, l.Off}
+}
+
+func linAdd(a, b VLin, sign int64) Val {
+	t := map[string]int64{}
+	for k, c := range a.Terms {
+		t[k] += c
+	}
+	for k, c := range b.Terms {
+		t[k] += sign * c
+	}
+	return linNorm(VLin{t, a.Off + sign*b.Off})
+}
+
 // VOpq: an opaque named value (string, slice, struct we do not look into).
 type VOpq struct{ Name string }
 
@@ -103,6 +154,28 @@ func render(v Val) string {
 		default:
 			return fmt.Sprintf("%s-%d", x.Name, -x.Off)
 		}
+	case VLin:
+		keys := make([]string, 0, len(x.Terms))
+		for k := range x.Terms {
+			keys = append(keys, k)
+		}
+		sort.Strings(keys)
+		sb := ""
+		for _, k := range keys {
+			c := x.Terms[k]
+			switch {
+			case c == 1:
+				sb += "+" + k
+			case c == -1:
+				sb += "-" + k
+			default:
+				sb += fmt.Sprintf("%+d*%s", c, k)
+			}
+		}
+		if x.Off != 0 {
+			sb += fmt.Sprintf("%+d", x.Off)
+		}
+		return "(" + strings.TrimPrefix(sb, "+") + ")"
 	case VOpq:
 		return x.Name
 	case VIface:
@@ -113,6 +186,9 @@ func render(v Val) string {
 	case VPtr:
 		return "&" + x.Obj.Name + x.Path
 	case VStruct:
+		if x.T == nil {
+			x.T = types.NewStruct(nil, nil)
+		}
 		keys := make([]string, 0, len(x.Fields))
 		for k := range x.Fields {
 			keys = append(keys, k)
@@ -182,6 +258,9 @@ type Region struct {
 	// events and stores are reset, and the run proper begins.
 	PreWorld World
 	AtStart  func(r *Run, fr *frame)
+	// Prepare runs before parameters are bound (to create objects for them).
+	Prepare  func(r *Run)
+	lastObjs map[string]*Obj
 }
 
 type Outcome struct {
@@ -193,6 +272,7 @@ type Outcome struct {
 	Undecided string
 	Asked     []string // atoms the world was asked (for diagnostics)
 	CutBlock  *ssa.BasicBlock
+	Path      []int // indices of the region function's blocks, in execution order (after the prologue)
 }
 
 type Run struct {
@@ -267,6 +347,9 @@ func Interpret(reg *Region, w World) (out *Outcome) {
 			panic(e)
 		}
 	}()
+	if reg.Prepare != nil {
+		reg.Prepare(r)
+	}
 	fr := &frame{fn: reg.Fn, env: map[ssa.Value]Val{}}
 	for _, p := range reg.Fn.Params {
 		if v, ok := reg.Params[p.Name()]; ok {
@@ -289,6 +372,10 @@ func Interpret(reg *Region, w World) (out *Outcome) {
 
 func (r *Run) finish() {
 	out := r.out
+	r.reg.lastObjs = map[string]*Obj{}
+	for _, o := range r.objs {
+		r.reg.lastObjs[o.Name] = o
+	}
 	for _, o := range r.objs {
 		if o.Local {
 			continue
@@ -362,6 +449,9 @@ func (r *Run) exec(fr *frame, b *ssa.BasicBlock, skipPhis bool) (string, []Val) 
 			}
 			r.out.CutBlock = b
 			return "cut:" + b.Comment, nil
+		}
+		if fr.fn == r.reg.Fn && (r.reg.Start == nil || r.entered) {
+			r.out.Path = append(r.out.Path, b.Index)
 		}
 		var next *ssa.BasicBlock
 		// phis are evaluated simultaneously
@@ -548,8 +638,13 @@ func (r *Run) load(o *Obj, path string, t types.Type) Val {
 
 func (r *Run) store(o *Obj, path string, v Val) {
 	if vs, ok := v.(VStruct); ok {
-		for k, fv := range vs.Fields {
-			r.store(o, path+"."+k, fv)
+		keys := make([]string, 0, len(vs.Fields))
+		for k := range vs.Fields {
+			keys = append(keys, k)
+		}
+		sort.Strings(keys)
+		for _, k := range keys {
+			r.store(o, path+"."+k, vs.Fields[k])
 		}
 		return
 	}
@@ -759,17 +854,13 @@ func (r *Run) binop(op token.Token, a, b Val, x *ssa.BinOp) Val {
 		if aok && bok && ca.V != nil && cb.V != nil {
 			return VConst{V: constant.BinaryOp(ca.V, op, cb.V), T: ca.T}
 		}
-		if s, ok := a.(VSym); ok {
-			if n, ok := constInt64(b); ok {
+		if la, ok := linOf(a); ok {
+			if lb, ok := linOf(b); ok {
+				sign := int64(1)
 				if op == token.SUB {
-					n = -n
+					sign = -1
 				}
-				return VSym{s.Name, s.Off + n}
-			}
-		}
-		if s, ok := b.(VSym); ok && op == token.ADD {
-			if n, ok := constInt64(a); ok {
-				return VSym{s.Name, s.Off + n}
+				return linAdd(la, lb, sign)
 			}
 		}
 		// symbol ± symbol: opaque arithmetic (named), still comparable by the world
@@ -1105,6 +1196,16 @@ func (w *MapWorld) intOf(v Val) (int64, bool) {
 		if n, ok := w.Ints[x.Name]; ok {
 			return n + x.Off, true
 		}
+	case VLin:
+		t := x.Off
+		for k, c := range x.Terms {
+			n, ok := w.Ints[k]
+			if !ok {
+				return 0, false
+			}
+			t += c * n
+		}
+		return t, true
 	}
 	return 0, false
 }
